@@ -21,7 +21,8 @@ from pbt import wellformed as wf
 from pbt.runner import Check, Disc, Outcome
 
 SINGLE_NOTATIONS = ['call', '__call__', 'proxy', 'send']
-BATCH_NOTATIONS = ['batch-add', 'batch-call', 'batch-getitem', 'batch-proxy', 'batch-send']
+# 'batch-reuse': ONE batch object - the first `split` calls are added and sent, then the rest is added to the same object and it is sent again
+BATCH_NOTATIONS = ['batch-add', 'batch-call', 'batch-getitem', 'batch-proxy', 'batch-send', 'batch-reuse']
 METHODS = {
     # name -> list of (args, kwargs) shapes that bind, plus some that do not
     'echo': [([1], {}), ([1, 'x'], {}), ([], {'a': 1}), ([], {'a': None, 'b': [1]}), ([], {}), ([1, 2, 3], {}), ([], {'zz': 1})],
@@ -64,7 +65,7 @@ class C07(Check):
         "cases: call plans of 1..4 logical calls (method of the 15-method registry or an unknown one, positional list or named mapping "
         "incl. non-binding shapes, call or notification, pooled JSON values as arguments) executed through a notation {call, __call__, "
         "proxy attribute, hand-built Request + send, notify; batch add/notify, batch(...)(...), batch[...], batch.proxy, hand-built "
-        "BatchRequest + batch.send} (each only where it can express the plan) and, for the interchangeability clause, through a second "
+        "BatchRequest + batch.send; one batch object sent, grown and sent again} (each only where it can express the plan) and, for the interchangeability clause, through a second "
         "notation with identically seeded id generators; x sync/async client x sync/async dispatcher x id generator {sequential(start, "
         "step), randint, random(length, chars), uuid} x strict on/off x scripted method behaviours (return any JSON value, raise registered "
         "typed / unregistered protocol errors, raise exceptions). Oracle: one transport call per send; the wire text is a valid request "
@@ -106,11 +107,11 @@ class C07(Check):
         )
         s_idgen = st.one_of(s_idgen, s_idgen, st.builds(lambda a: {'kind': 'sequential', 'start': a, 'step': 1}, st.sampled_from([1, 0])))
         return st.builds(
-            lambda c, d, s, g, n1, n2, plan, beh, seed: {'client': c, 'dispatcher': d, 'strict': s, 'id_gen': g, 'notation': n1, 'other': n2,
-                                                           'plan': plan, 'behaviours': beh, 'seed': seed},
+            lambda c, d, s, g, n1, n2, plan, beh, seed, split: {'client': c, 'dispatcher': d, 'strict': s, 'id_gen': g, 'notation': n1, 'other': n2,
+                                                                  'plan': plan, 'behaviours': beh, 'seed': seed, 'split': split},
             st.sampled_from(['sync', 'async']), st.sampled_from(['sync', 'async']), st.sampled_from([True, True, False]), s_idgen,
             st.sampled_from(SINGLE_NOTATIONS + BATCH_NOTATIONS + BATCH_NOTATIONS), st.sampled_from(SINGLE_NOTATIONS + BATCH_NOTATIONS),
-            st.lists(step(), min_size=1, max_size=4), stdreg.behaviours(), st.integers(0, 1000),
+            st.lists(step(), min_size=1, max_size=4), stdreg.behaviours(), st.integers(0, 1000), st.integers(1, 3),
         )
 
     def corpus(self):
@@ -122,6 +123,11 @@ class C07(Check):
             {**base, 'client': 'async', 'dispatcher': 'async', 'notation': 'batch-call', 'other': 'batch-add', 'plan': [n('noargs', []), n('noargs', [])]},
             {**base, 'notation': 'batch-getitem', 'other': 'batch-proxy', 'plan': [c('echo', [1, 2]), c('noargs', []), c('ret', [None])]},
             {**base, 'notation': 'proxy', 'other': 'send', 'plan': [c('rpc_err2', []), c('nope', [])]},
+            # one batch object sent while it holds notifications only, then grown by calls and sent again (and the other way round)
+            {**base, 'notation': 'batch-reuse', 'other': 'batch-add', 'split': 1, 'plan': [n('echo', [1]), c('echo', [2]), c('ret', [])]},
+            {**base, 'strict': False, 'client': 'async', 'dispatcher': 'async', 'notation': 'batch-reuse', 'other': 'batch-send', 'split': 2,
+             'plan': [n('noargs', []), n('echo', [1]), c('echo', [2])]},
+            {**base, 'notation': 'batch-reuse', 'other': 'batch-call', 'split': 2, 'plan': [c('echo', [1]), c('echo', [2]), n('ret', []), c('noargs', [])]},
             {**base, 'id_gen': {'kind': 'sequential', 'start': 0, 'step': 1}, 'notation': 'call', 'other': 'batch-add', 'plan': [c('echo', [], {'a': 0})]},
             # library exceptions raised from inside a method body are ordinary server errors for the caller (both dispatchers)
             {**base, 'notation': 'call', 'other': 'batch-add', 'plan': [c('boom', []), c('boom2', [])],
@@ -139,7 +145,13 @@ class C07(Check):
             return all(p['kind'] == 'call' and not p['kwargs'] for p in plan)
         if notation == 'batch-proxy':
             return all(p['kind'] == 'call' for p in plan)
+        if notation == 'batch-reuse':
+            return len(plan) >= 2
         return True
+
+    @staticmethod
+    def _split(spec: Any) -> int:
+        return max(1, min(len(spec['plan']) - 1, spec.get('split', 1)))
 
     def _run_notation(self, spec: Any, notation: str) -> Dict[str, Any]:
         ckind, dkind = spec['client'], spec['dispatcher']
@@ -184,6 +196,14 @@ class C07(Check):
             b = client.batch
             if notation == 'batch-add':
                 for p in plan:
+                    (b.add if p['kind'] == 'call' else b.notify)(p['method'], *p['args'], **p['kwargs'])
+                attempt(lambda: b.call())
+            elif notation == 'batch-reuse':
+                k = self._split(spec)
+                for p in plan[:k]:
+                    (b.add if p['kind'] == 'call' else b.notify)(p['method'], *p['args'], **p['kwargs'])
+                attempt(lambda: b.call())
+                for p in plan[k:]:
                     (b.add if p['kind'] == 'call' else b.notify)(p['method'], *p['args'], **p['kwargs'])
                 attempt(lambda: b.call())
             elif notation == 'batch-call':
@@ -337,22 +357,38 @@ class C07(Check):
             discs.append(Disc("C07/executions", f"log {jg.short(got_exec)} expected {jg.short(want_exec)} | {where}"))
         return discs
 
+    def _run_and_judge(self, spec: Any, notation: str, expected: List[ref.Element]):
+        run = self._run_notation(spec, notation)
+        if notation != 'batch-reuse':
+            return run, self._judge(spec, notation, run, expected)
+        # two sends of one batch object: the first carries plan[:k], the second the whole plan (the object keeps what was added);
+        # each send is judged like a freshly built batch of those calls
+        k = self._split(spec)
+        if len(run['sent']) != 2 or len(run['outcomes']) != 2:
+            return run, [Disc("C07/wire/transport-call-count", f"{len(run['sent'])} transport calls, {len(run['outcomes'])} outcomes for 2 sends of one batch object | "
+                                                               f"split={k} plan={jg.short(spec['plan'], 400)}")]
+        n1 = len([el for el in expected[:k] if el.execution is not None])
+        first = {'sent': run['sent'][:1], 'outcomes': run['outcomes'][:1], 'log': run['log'][:n1]}
+        second = {'sent': run['sent'][1:], 'outcomes': run['outcomes'][1:], 'log': run['log'][n1:]}
+        discs = self._judge({**spec, 'plan': spec['plan'][:k]}, 'batch-reuse', first, expected[:k])
+        discs += self._judge(spec, 'batch-reuse', second, expected)
+        return second, discs
+
     def run_case(self, spec: Any) -> Outcome:
         plan = spec['plan']
         expected = self._expected(spec)
         notation = spec['notation']
         if not self._expressible(notation, plan):
             notation = 'batch-add'
-        run = self._run_notation(spec, notation)
-        discs = self._judge(spec, notation, run, expected)
+        run, discs = self._run_and_judge(spec, notation, expected)
         classes = [f"notation/{notation}", f"pair/{spec['client']}-{spec['dispatcher']}", f"idgen/{spec['id_gen']['kind']}",
                    'strict/on' if spec['strict'] else 'strict/off']
         evaluations = 1
         other = spec.get('other')
         if other and other != notation and self._expressible(other, plan):
-            run2 = self._run_notation(spec, other)
+            run2, discs2 = self._run_and_judge(spec, other, expected)
             evaluations += 1
-            discs += self._judge(spec, other, run2, expected)
+            discs += discs2
             # interchangeability: same wire documents (when both notations group the sends the same way and ids are reproducible)
             same_grouping = (notation in SINGLE_NOTATIONS) == (other in SINGLE_NOTATIONS)
             if same_grouping and spec['id_gen']['kind'] != 'uuid' and not discs:
